@@ -25,7 +25,8 @@ func init() {
 			"(5b) Core side of the upgrade path: CreateUpgrade/DestroyUpgrade receive the term Rotate returned, behind Rotate's success; checkKeyringUpgrade calls CheckUpgrade again after every installed term; performKeyUpgrades runs checkKeyringUpgrade, ReloadRootKey, ReloadKeyring, reloadShamirKey in this order, each after the previous succeeded; CreateUpgrade serializes and encrypts TermKey(term) of the live keyring for its own term parameter; " +
 			"(2c) Core.sealInternalWithOptions: after the core was marked sealed every return lies behind SealManager.sealAll, except the two tabled error legs (preSeal / raft TeardownCluster failed) whose callees cannot fail on the pinned tree; " +
 			"(6b) the sibling rotations have no atomic envelope either (further instances of F6); " +
-			"(2d) shared with C01.7: a superseded keyring is zeroised only where the keyring made live came out of Keyring.SetRootKey (own copy of the root key), never after a swap to a clone (AddKey) that shares the root-key slice.",
+			"(2d) shared with C01.7: a superseded keyring is zeroised only where the keyring made live came out of Keyring.SetRootKey (own copy of the root key), never after a swap to a clone (AddKey) that shares the root-key slice; " +
+			"(8) who may write a Shamir seal's in-memory key-encryption key: every call of the wrapper's SetAesGcmKeyBytes in package vault is tabled; a write tabled 'live' sets the wrapper of a seal that exists outside the function, with the tabled key (the unseal key parameter, the new seal key of a verified rekey/rotation, freshly generated shares, the old seal's recovery key, the barrier-decrypted KEK record) behind the tabled guard; a write tabled 'test' (share checks of rekey / rotation / generate-root, resolved path-sensitively under useTestSeal) sets a wrapper allocated in the function; every NewDefaultSeal is built over NewAccess(NewShamirWrapper()) — seals never share a wrapper.",
 		NotDecided: "readability of old entries after arbitrary rotate/rekey histories (values/keys); crash at an arbitrary write prefix beyond listing the non-atomic sequences; lock discipline of b.l (conditional locking); namespace barriers' sealing order.",
 		Run:        runC10,
 	})
